@@ -1010,6 +1010,7 @@ func c09Groups(s *c09Schema, cs *c09Case) (read, written []c09Out, info c09Group
 			return
 		}
 		read = c09Flat(out)
+		info.read = read
 		if !cs.Dedupe && merged.NumRows() != int64(len(read)) {
 			fail = fmt.Sprintf("NumRows() = %d but Rows() delivered %d rows", merged.NumRows(), len(read))
 			return
@@ -1041,10 +1042,22 @@ func c09Groups(s *c09Schema, cs *c09Case) (read, written []c09Out, info c09Group
 			}
 			written = append(written, c09Flat(o)...)
 		}
+		// the plan Go built (the elements of rowGroupSegments) and what the planner saw of the inputs
+		eligible, tooBig := c09RefineEligible(cs)
+		info.tooBig = tooBig
+		if eligible {
+			info.plan, info.planBad, info.planErr = c09GoPlan(s, merged)
+			c09ProbeIndexes(s, groups, &info)
+			info.refine = true
+		}
 	}); msg != "" {
 		fail = "panic: " + msg
 	}
 	return
+}
+
+func c09RefineRequest(cs *c09Case, info *c09GroupsInfo) string {
+	return fmt.Sprintf("c09.refine %s %s %s %s", c09CfgTok(cs.Cols), c09InputsTok(cs.Inputs), c09LayoutsTok(info.layouts), c09CutsTok(info.cuts))
 }
 
 func c09CheckGroups(c *core.Ctx, cs *c09Case, info *c09GroupsInfo) bool {
@@ -1059,14 +1072,17 @@ func c09CheckGroups(c *core.Ctx, cs *c09Case, info *c09GroupsInfo) bool {
 		return true
 	}
 	if fail != "" {
+		c09Fail = "violation:merge-groups-failed"
 		c.Violation("merge-groups-failed", what+": "+fail, cs)
 		return false
 	}
 	if class, w := c09Predicate(cs, read, cs.Dedupe); class != "" {
+		c09Fail = "violation:" + class
 		c.Violation(class, what+", rows of Rows(): "+w, cs)
 		return false
 	}
 	if class, w := c09Predicate(cs, written, cs.Dedupe); class != "" {
+		c09Fail = "violation:written-" + class
 		c.Violation("written-"+class, what+", rows of the file written with WriteRowGroup: "+w, cs)
 		return false
 	}
@@ -1085,12 +1101,40 @@ func c09CheckGroups(c *core.Ctx, cs *c09Case, info *c09GroupsInfo) bool {
 			got = strings.Join(items, ",")
 		}
 		if want != got {
+			c09Fail = "mismatch:corr:C09.plan"
 			c.Mismatch("corr:C09.plan", req, got, want, cs)
+			return false
+		}
+	}
+	// the refined plan: the elements of rowGroupSegments as (input, offset, rows)
+	// parts == the model's (Merge/Refine.v), given the page layouts and the
+	// availability of the cut lookups as the planner saw them
+	if inf.refine {
+		if inf.planBad != "" {
+			c09Fail = "violation:plan-piece-not-a-range"
+			c.Violation("plan-piece-not-a-range", what+": "+inf.planBad, cs)
+			return false
+		}
+		req := c09RefineRequest(cs, &inf)
+		if inf.planErr != "" {
+			c09Fail = "mismatch:corr:C09.refine"
+			c.Mismatch("corr:C09.refine", req, "plan not observable: "+inf.planErr, "", cs)
+			return false
+		}
+		want := c09CanonPlan(c.Ask(req))
+		got := c09PlanTok(inf.plan)
+		if want != got {
+			c09Fail = "mismatch:corr:C09.refine"
+			c.Mismatch("corr:C09.refine", req, got, want, cs)
 			return false
 		}
 	}
 	return true
 }
+
+// c09Fail: the kind of the last failure c09Check reported ("violation:<class>"
+// or "mismatch:<corr>"); the shrinker keeps to the kind it started from.
+var c09Fail string
 
 func c09PlanModelled(cs *c09Case) bool {
 	if len(cs.Batches) != 1 || len(cs.Inputs) == 0 || len(cs.Inputs) > 12 {
@@ -1130,7 +1174,9 @@ func c09Valid(cs *c09Case) bool {
 	return true
 }
 
-func c09Check(c *core.Ctx, cs *c09Case) bool {
+func c09Check(c *core.Ctx, cs *c09Case) bool { return c09CheckInfo(c, cs, nil) }
+
+func c09CheckInfo(c *core.Ctx, cs *c09Case, info *c09GroupsInfo) bool {
 	if !c09Valid(cs) {
 		return true
 	}
@@ -1140,9 +1186,17 @@ func c09Check(c *core.Ctx, cs *c09Case) bool {
 	case "dedupe":
 		return c09CheckDedupe(c, cs)
 	case "groups":
-		return c09CheckGroups(c, cs, nil)
+		return c09CheckGroups(c, cs, info)
 	}
 	return true
+}
+
+func c09Rows(cs *c09Case) int {
+	total := 0
+	for _, in := range cs.Inputs {
+		total += len(in)
+	}
+	return total
 }
 
 func c09Clone(cs *c09Case) *c09Case {
@@ -1172,16 +1226,34 @@ func c09DropInput(cs *c09Case, i int) *c09Case {
 	return t
 }
 
+// c09BigShrinks counts the large cases shrunk so far: each probe of a large
+// case writes and merges files, so only the first few are minimised.
+var c09BigShrinks int
+
 // c09Shrink minimises a failing case: drop inputs, drop rows (halves, then
-// single rows), simplify the scripts.
+// single rows), simplify the scripts.  The failure kept is of the kind the
+// case started with (a predicate violation is not traded for a mismatch).
+// Large cases (> 2000 rows) get a small budget, and only the first three of a
+// run are shrunk at all: the replay is then the case as generated.
 func c09Shrink(c *core.Ctx, cs *c09Case) *c09Case {
 	budget := 600
+	if c09Rows(cs) > 2000 {
+		budget = 120
+		c09BigShrinks++
+		if c09BigShrinks > 3 {
+			return c09Clone(cs)
+		}
+	}
+	c09Fail = ""
+	c.Probe(func() { c09Check(c, cs) })
+	kind := c09Fail
 	fails := func(t *c09Case) bool {
 		if budget <= 0 || !c09Valid(t) {
 			return false
 		}
 		budget--
-		return c.Probe(func() { c09Check(c, t) })
+		c09Fail = ""
+		return c.Probe(func() { c09Check(c, t) }) && c09Fail == kind
 	}
 	cur := c09Clone(cs)
 	for changed := true; changed && budget > 0; {
@@ -1250,9 +1322,127 @@ func c09Shrink(c *core.Ctx, cs *c09Case) *c09Case {
 	return cur
 }
 
+// c09Stats: the comparisons of the refined plan with the model
+var c09Stats struct {
+	compared, sliced, tooBig, converted int
+	bufferCuts, bufferOnePage, bufferInputs int
+	indexOdd string
+}
+
+// c09RefineCase records the coverage of one plan comparison.
+func c09RefineCase(c *core.Ctx, cs *c09Case, info *c09GroupsInfo, key string) {
+	if info.tooBig {
+		c09Stats.tooBig++
+	}
+	if !info.refine {
+		return
+	}
+	c09Stats.compared++
+	c09Stats.converted += info.converted
+	if info.indexOdd != "" && c09Stats.indexOdd == "" {
+		c09Stats.indexOdd = info.indexOdd
+	}
+	for i := range cs.Inputs {
+		if cs.backingOf(i) == "file" || len(cs.Inputs[i]) == 0 || i >= len(info.cuts) {
+			continue
+		}
+		c09Stats.bufferInputs++
+		if info.cuts[i] {
+			c09Stats.bufferCuts++
+		}
+		if len(info.layouts[i]) > 0 && len(info.layouts[i][0]) == 1 {
+			c09Stats.bufferOnePage++
+		}
+	}
+	sliced := false
+	merged := false
+	for _, pc := range info.plan {
+		if len(pc) > 1 {
+			merged = true
+		}
+		for _, p := range pc {
+			if p.Off != 0 || p.Len != len(cs.Inputs[p.In]) {
+				sliced = true
+			}
+		}
+	}
+	bucket := "refine/plan-unsliced"
+	switch {
+	case sliced:
+		bucket = "refine/plan-sliced"
+		c09Stats.sliced++
+	case !merged:
+		bucket = "refine/plan-unsliced(no overlap)"
+	}
+	if tie := c09TieKind(cs, info); tie != "" {
+		bucket += "+" + tie
+	}
+	c.Case(bucket, key, merged || sliced)
+}
+
+// c09TieKind tells whether a page of the first sorting column of some input
+// starts with the first-column value of the last row of another input
+// ("tie-at-page-start": the boundary case of cutAbove) or ends with the
+// first-column value of the first row of another input ("tie-at-page-end":
+// the boundary case of cutBelow).
+func c09TieKind(cs *c09Case, info *c09GroupsInfo) string {
+	firsts := map[int64][]int{}
+	lasts := map[int64][]int{}
+	for i, in := range cs.Inputs {
+		if len(in) == 0 {
+			continue
+		}
+		if in[0][0] == nil || in[len(in)-1][0] == nil {
+			return ""
+		}
+		firsts[*in[0][0]] = append(firsts[*in[0][0]], i)
+		lasts[*in[len(in)-1][0]] = append(lasts[*in[len(in)-1][0]], i)
+	}
+	other := func(m map[int64][]int, v *int64, i int) bool {
+		if v == nil {
+			return false
+		}
+		for _, j := range m[*v] {
+			if j != i {
+				return true
+			}
+		}
+		return false
+	}
+	start, end := false, false
+	for i, in := range cs.Inputs {
+		if len(in) == 0 || i >= len(info.layouts) || len(info.layouts[i]) == 0 || len(info.layouts[i][0]) < 2 {
+			continue
+		}
+		at := 0
+		for _, n := range info.layouts[i][0] {
+			if n <= 0 || at+n > len(in) {
+				break
+			}
+			if other(lasts, in[at][0], i) {
+				start = true
+			}
+			if other(firsts, in[at+n-1][0], i) {
+				end = true
+			}
+			at += n
+		}
+	}
+	switch {
+	case start && end:
+		return "tie-at-page-start+end"
+	case start:
+		return "tie-at-page-start"
+	case end:
+		return "tie-at-page-end"
+	}
+	return ""
+}
+
 func c09Run(c *core.Ctx, cs *c09Case, bucket string) bool {
 	ok := true
-	if c.Probe(func() { c09Check(c, cs) }) {
+	var info c09GroupsInfo
+	if c.Probe(func() { c09CheckInfo(c, cs, &info) }) {
 		ok = false
 		min := c09Shrink(c, cs)
 		c09Check(c, min)
@@ -1265,6 +1455,9 @@ func c09Run(c *core.Ctx, cs *c09Case, bucket string) bool {
 		}
 	}
 	c.Case(bucket, string(key), nonEmpty >= 2 || (cs.Kind == "dedupe" && nonEmpty == 1))
+	if ok {
+		c09RefineCase(c, cs, &info, string(key))
+	}
 	return ok
 }
 
@@ -1401,6 +1594,359 @@ func c09GenReaders(c *core.Ctx, k int) *c09Case {
 		EOFData: c.Rng.Intn(4) == 0, Batches: c09GenBatches(c), Note: pattern}
 }
 
+// ---- large file-backed inputs with ties at the page boundaries ---------------
+//
+// The rows of an input are built in "logical" order: pairs (t0, t1) ascending;
+// the first sorting column is t0, or -t0 when it is descending, the second is
+// t1 (ascending).  Every input is sorted with the harness comparator at the end.
+
+type c09Builder struct {
+	intn func(n int) int // source of choices: c.Rng.Intn, or a fixed sequence for the corpus
+	v    int64           // current value of the first column
+	rows [][2]int64
+	step int // rise: a new first-column value every ~step rows
+}
+
+// rise: n rows whose first column rises above the current value
+func (b *c09Builder) rise(n int) *c09Builder {
+	for r := 0; r < n; r++ {
+		if r == 0 || b.step <= 1 || b.intn(b.step) == 0 {
+			b.v++
+		}
+		b.rows = append(b.rows, [2]int64{b.v, int64(b.intn(100))})
+	}
+	return b
+}
+
+// run: n rows with the first column == a new value, second column in [lo, hi)
+func (b *c09Builder) run(n int, lo, hi int64) *c09Builder {
+	b.v++
+	return b.runHere(n, lo, hi)
+}
+
+// runHere: n rows with the first column == the current value
+func (b *c09Builder) runHere(n int, lo, hi int64) *c09Builder {
+	for r := 0; r < n; r++ {
+		b.rows = append(b.rows, [2]int64{b.v, lo + int64(b.intn(int(hi-lo)))})
+	}
+	return b
+}
+
+// below: n rows with the first column just below the current value
+func (b *c09Builder) below(n int) *c09Builder {
+	span := 1 + n/25
+	for r := 0; r < n; r++ {
+		b.rows = append(b.rows, [2]int64{b.v - 1 - int64(b.intn(span)), int64(b.intn(100))})
+	}
+	return b
+}
+
+func (b *c09Builder) keys(cols []c09Col) []c09Key {
+	ks := make([]c09Key, len(b.rows))
+	for i, r := range b.rows {
+		t0, t1 := r[0], r[1]
+		if cols[0].Desc {
+			t0 = -t0
+		}
+		ks[i] = make(c09Key, len(cols))
+		ks[i][0] = &t0
+		if len(cols) > 1 {
+			if cols[1].Desc {
+				t1 = -t1
+			}
+			ks[i][1] = &t1
+		}
+	}
+	c09SortKeys(cols, ks)
+	return ks
+}
+
+// c09PageStarts: the first row of every page of the first sorting column of a
+// file of n rows written by c09WriteFile with the given PageBufferSize (the
+// column is a fixed-width one: the boundaries depend on the number of rows only).
+var c09PageStartsCache = map[string][]int{}
+
+func c09PageStarts(cols []c09Col, pageBuf, n int) []int {
+	key := fmt.Sprintf("%d/%d/%d", len(cols), pageBuf, n)
+	if st, ok := c09PageStartsCache[key]; ok {
+		return st
+	}
+	s := c09NewSchema(cols)
+	b := &c09Builder{intn: func(int) int { return 0 }, step: 1}
+	b.rise(n)
+	var st []int
+	if f, err := c09WriteFile(s, s.rows(0, b.keys(cols)), pageBuf); err == nil && len(f.RowGroups()) == 1 {
+		if oi, err := f.RowGroups()[0].ColumnChunks()[0].OffsetIndex(); err == nil && oi != nil {
+			for p := 0; p < oi.NumPages(); p++ {
+				st = append(st, int(oi.FirstRowIndex(p)))
+			}
+		}
+	}
+	c09PageStartsCache[key] = st
+	return st
+}
+
+var c09TieShapes = []string{"tie-lower", "tie-lower-crafted", "tie-lower-at-min", "tie-upper", "tie-chain", "touching", "nested", "identical-first-column"}
+
+// c09GenTie generates a large file-backed case around the boundary cases of
+// the cut lookups.  intn is the source of every choice.
+func c09GenTie(intn func(int) int, shape string, desc bool) *c09Case {
+	cols := []c09Col{{Desc: desc}, {}}
+	pageBuf := []int{256, 256, 512, 1024}[intn(4)]
+	rowsPerPage := 50
+	if st := c09PageStarts(cols, pageBuf, 400); len(st) > 1 {
+		rowsPerPage = st[1]
+	}
+	nb := func() *c09Builder { return &c09Builder{intn: intn, step: 1 + intn(3), v: 1000} }
+	long := func() int { return rowsPerPage + 1 + intn(5*rowsPerPage) }          // a run that spans a page boundary
+	lone := func() int { return 1100 + intn(1500) }                              // rows of a lone stretch worth slicing
+	short := func() int { return 1 + intn(40) }                                  // a run shorter than a page
+	loneOrNot := func() int {
+		if intn(5) == 0 {
+			return 300 + intn(900) // around the threshold of 1024 rows
+		}
+		return lone()
+	}
+	var bs []*c09Builder
+	switch shape {
+	case "tie-lower", "tie-lower-crafted", "tie-lower-at-min":
+		// A ends at (v, big); B has a long run of v spanning pages, then a lone stretch
+		a := nb().rise(loneOrNot())
+		if intn(2) == 0 {
+			a.run(short(), 1000, 2000)
+		} else {
+			a.run(long(), 0, 100)
+		}
+		b := nb()
+		b.v = a.v
+		switch shape {
+		case "tie-lower":
+			b.below(intn(4 * rowsPerPage))
+		case "tie-lower-crafted":
+			// a page of B starts exactly at its first row with value v
+			if st := c09PageStarts(cols, pageBuf, 400); len(st) > 2 {
+				b.below(st[1+intn(len(st)-2)])
+			}
+		}
+		b.runHere(long(), 0, 100).rise(loneOrNot())
+		bs = []*c09Builder{a, b}
+		if intn(2) == 0 {
+			// C starts at B's last value: the symmetric tie
+			b.run(long(), 0, 100)
+			c := nb()
+			c.v = b.v
+			c.runHere(short(), 0, 5).rise(lone())
+			bs = append(bs, c)
+		}
+	case "tie-upper":
+		// B is alone before C starts at (w, small); B has a long run of w spanning pages
+		b := nb().rise(lone()).run(long(), 0, 100)
+		c := nb()
+		c.v = b.v
+		if intn(2) == 0 {
+			c.runHere(short(), 0, 5)
+		} else {
+			c.runHere(long(), 0, 100)
+		}
+		c.rise(loneOrNot())
+		if intn(2) == 0 {
+			b.rise(intn(3 * rowsPerPage)) // B goes on a little above w
+		}
+		bs = []*c09Builder{b, c}
+	case "tie-chain":
+		// 3-4 inputs, each starting with a run of the last value of the previous one
+		k := 3 + intn(2)
+		v := int64(1000)
+		for i := 0; i < k; i++ {
+			b := nb()
+			b.v = v
+			if i > 0 {
+				switch intn(3) {
+				case 0:
+					b.below(intn(3 * rowsPerPage))
+				case 1:
+					if st := c09PageStarts(cols, pageBuf, 400); len(st) > 2 {
+						b.below(st[1+intn(len(st)-2)])
+					}
+				}
+				if intn(3) == 0 {
+					b.runHere(short(), 0, 5)
+				} else {
+					b.runHere(long(), 0, 100)
+				}
+			}
+			b.rise(loneOrNot())
+			switch intn(3) {
+			case 0:
+				b.run(short(), 1000, 2000)
+			case 1:
+				b.run(long(), 0, 100)
+			default:
+				b.run(1, 0, 100)
+			}
+			v = b.v
+			bs = append(bs, b)
+		}
+	case "touching":
+		// max of one == min of the next, single rows at the junctions or short runs
+		k := 2 + intn(3)
+		v := int64(1000)
+		for i := 0; i < k; i++ {
+			b := nb()
+			b.v = v
+			if i > 0 {
+				b.runHere(1+intn(3), 0, 100)
+			}
+			b.rise(loneOrNot()).run(1+intn(3), 0, 100)
+			v = b.v
+			bs = append(bs, b)
+		}
+	case "nested":
+		// a small row group nested inside a big one: lone stretches on both sides
+		big := nb().rise(lone())
+		small := nb()
+		switch intn(3) {
+		case 0: // the big one has a long run of the small one's first value
+			big.run(long(), 0, 100)
+			small.v = big.v
+			small.runHere(short(), 0, 50)
+		case 1: // ... of its last value
+			small.v = big.v + 1
+			small.runHere(short(), 0, 100)
+		default:
+			small.v = big.v
+			small.rise(short())
+		}
+		small.step = 1
+		small.rise(20 + intn(200))
+		big.step = 1 + intn(2)
+		big.rise(len(small.rows) / 2)
+		if intn(2) == 0 {
+			small.run(short(), 50, 100)
+			big.v = small.v
+			big.runHere(long(), 0, 100)
+		}
+		for big.v <= small.v {
+			big.rise(rowsPerPage)
+		}
+		big.rise(lone())
+		bs = []*c09Builder{big, small}
+		if intn(3) == 0 {
+			c := nb()
+			c.v = big.v - int64(intn(20))
+			c.runHere(short(), 0, 100).rise(lone())
+			bs = append(bs, c)
+		}
+	default: // identical-first-column: only the second column tells the inputs apart
+		k := 2 + intn(2)
+		lo := int64(0)
+		for i := 0; i < k; i++ {
+			b := nb()
+			b.v = 7
+			n := 1100 + intn(1500)
+			hi := lo + int64(n)
+			for r := 0; r < n; r++ {
+				b.rows = append(b.rows, [2]int64{7, lo + int64(intn(int(hi-lo)))})
+			}
+			switch intn(3) {
+			case 0:
+				lo = hi // touching or disjoint in the second column
+			case 1:
+				lo = hi - int64(intn(200)) - 1
+			default:
+				lo = lo + (hi-lo)/2
+			}
+			bs = append(bs, b)
+		}
+	}
+	ins := make([][]c09Key, len(bs))
+	backing := make([]string, len(bs))
+	for i, b := range bs {
+		ins[i] = b.keys(cols)
+		backing[i] = "file"
+	}
+	// the order of the arguments is not the order of the keys
+	for i := len(ins) - 1; i > 0; i-- {
+		j := intn(i + 1)
+		ins[i], ins[j] = ins[j], ins[i]
+	}
+	note := "big " + shape
+	if desc {
+		note += " (descending first column)"
+	}
+	return &c09Case{Kind: "groups", Cols: cols, Inputs: ins, Batches: []int{c09BatchSizes[intn(len(c09BatchSizes))]}, Backing: backing, PageBuf: pageBuf, Note: note}
+}
+
+// c09FixedSeq: a fixed sequence of choices for the corpus cases
+func c09FixedSeq(seed uint64) func(int) int {
+	x := seed*2862933555777941757 + 3037000493
+	return func(n int) int {
+		if n <= 0 {
+			return 0
+		}
+		x = x*6364136223846793005 + 1442695040888963407
+		return int((x >> 33) % uint64(n))
+	}
+}
+
+// c09GenBig: 2-4 large file-backed inputs (1500-4000 rows) whose first-column
+// ranges overlap at the boundaries, touch, contain the next one or are disjoint.
+func c09GenBig(c *core.Ctx) *c09Case {
+	k := 2 + c.Rng.Intn(3)
+	cols := [][]c09Col{{{}}, {{}}, {{Desc: true}}, {{}, {}}, {{Optional: true}}}[c.Rng.Intn(5)]
+	ins := make([][]c09Key, k)
+	base := int64(0)
+	for j := 0; j < k; j++ {
+		n := 1500 + c.Rng.Intn(2500)
+		step := 1 + c.Rng.Intn(2)
+		ks := make([]c09Key, n)
+		v := base
+		for r := 0; r < n; r++ {
+			if c.Rng.Intn(step+1) != 0 {
+				v++
+			}
+			x := v
+			ks[r] = make(c09Key, len(cols))
+			ks[r][0] = &x
+			for q := 1; q < len(cols); q++ {
+				y := c.Rng.Int63n(3)
+				ks[r][q] = &y
+			}
+		}
+		c09SortKeys(cols, ks)
+		ins[j] = ks
+		switch c.Rng.Intn(4) {
+		case 0: // boundary overlap
+			base = v - int64(c.Rng.Intn(200))
+		case 1: // touching
+			base = v
+		case 2: // containment: next starts inside
+			base = base + (v-base)/3
+		default: // gap
+			base = v + 10
+		}
+	}
+	if cols[0].Desc {
+		for j := range ins {
+			c09SortKeys(cols, ins[j])
+		}
+	}
+	if cols[0].Optional && c.Rng.Intn(2) == 0 {
+		// some nulls at the end of one input
+		j := c.Rng.Intn(k)
+		for r := len(ins[j]) - 3; r < len(ins[j]); r++ {
+			ins[j][r] = make(c09Key, len(cols))
+		}
+	}
+	c.Rng.Shuffle(len(ins), func(a, b int) { ins[a], ins[b] = ins[b], ins[a] })
+	backing := make([]string, k)
+	for j := range backing {
+		backing[j] = "file"
+	}
+	pageBuf := []int{256, 512, 1024, 4096}[c.Rng.Intn(4)]
+	return &c09Case{Kind: "groups", Cols: cols, Inputs: ins, Batches: c09GenBatches(c), Backing: backing, PageBuf: pageBuf, Note: "big"}
+}
+
 // ---- cases.v ---------------------------------------------------------------
 
 func c09CoqKey(k c09Key) string {
@@ -1452,7 +1998,7 @@ func c09VmCase(cs *c09Case, out [][]c09Out, used []int) string {
 // ---- main ------------------------------------------------------------------
 
 func runC09(c *core.Ctx) {
-	c.Res.Rule = "k = 0..9 sorted inputs generated from overlap patterns (random, disjoint, touching: max of one = min of the next, nested, identical, dense duplicates, chains, long runs; empty inputs; duplicate keys within and across inputs) over key configurations (one or two sorting columns, ascending/descending, required/optional with nulls first/last), input lengths around the buffer sizes 24/48/96/192, ReadRows slice lengths from {1,2,3,23,24,25,64,191,192,193} (1-3 of them, cycled) and scripted source chunkings. readers: parquet.MergeRowReaders over scripted in-memory readers, emitted (input,seq) batches == model (2-way: c09.merge2, k>2: c09.mergek); dedupe: parquet.DedupeRowReader == model; groups: parquet.MergeRowGroups over Buffers and files with small pages (refinement on and off), with and without DropDuplicatedRows, read through Rows() and written with WriteRowGroup then read back. The property predicate (sorted, multiset = union with whole rows intact, per-input order; dedupe: one row per distinct key, each an input row) is evaluated on every output with the harness's own comparator. A case is one (inputs, scripts, options); non-trivial = at least two non-empty inputs (dedupe: one); distinct by the JSON of the case."
+	c.Res.Rule = "k = 0..9 sorted inputs generated from overlap patterns (random, disjoint, touching: max of one = min of the next, nested, identical, dense duplicates, chains, long runs; empty inputs; duplicate keys within and across inputs) over key configurations (one or two sorting columns, ascending/descending, required/optional with nulls first/last), input lengths around the buffer sizes 24/48/96/192, ReadRows slice lengths from {1,2,3,23,24,25,64,191,192,193} (1-3 of them, cycled) and scripted source chunkings. readers: parquet.MergeRowReaders over scripted in-memory readers, emitted (input,seq) batches == model (2-way: c09.merge2, k>2: c09.mergek); dedupe: parquet.DedupeRowReader == model; groups: parquet.MergeRowGroups over Buffers and files with small pages (refinement on and off), with and without DropDuplicatedRows, read through Rows() and written with WriteRowGroup then read back; large file-backed cases (2-4 inputs of 1100-5000 rows, PageBufferSize 256..4096 = pages of 50..550 rows): random chains (overlapping, touching, containing, disjoint) and, every other case and 10 fixed corpus cases, shapes built around the boundary cases of the cut lookups of merge_refine.go over two required int64 sorting columns (first ascending or descending): tie-lower (A ends at (v, big) or with a long run of v; B has a run of v spanning several pages of its first column - after a random prefix below v, after a prefix that ends exactly at a page boundary so that a page starts at the first row with value v, or from its first row - with small second-column values, then a lone stretch of >= 1100 rows (sometimes 300-1200, around minStreamedRegionRows = 1024), optionally a third input starting at a long run of B's last value), tie-upper (B alone before C starts at (w, small), B with a run of w spanning pages), tie-chain (3-4 inputs each starting with a run of the previous one's last value), touching (max of one = min of the next), nested (a small row group inside a big one that has lone stretches on both sides, with runs of the small one's first / last value in the big one), identical first-column values everywhere; the arguments are shuffled. For every groups case without DropDuplicatedRows and with refinement enabled the plan Go built is compared with the model (corr:C09.refine, Merge/Refine.v c09_refine): the elements of rowGroupSegments (field `segments` of the *sortedSegmentRowGroup read with reflect+unsafe, or the merged row group itself as the single element) are read one by one through their own Rows() and turned into parts (input, first seq, rows) - the rows of an input inside an element must be an ascending contiguous range (plan-piece-not-a-range) - and must equal the model's pieces (parts sorted by input on both sides, order of the pieces kept); the model is given the keys, the page layout of every sorting column (offset index of the row groups as wrapped by ConvertRowGroup; a Buffer is one page) and whether newCutLookups yields lookups for the first sorting column (its conditions evaluated on the column chunk); buckets refine/plan-sliced (the Go plan contains a row-range part) / plan-unsliced, +tie-at-page-start / -end when a page of the first sorting column of an input starts (ends) with the first-column value of the last (first) row of another input. Failing large cases are shrunk with a small budget (120 probes, the first three of a run only), keeping the kind of failure. The property predicate (sorted, multiset = union with whole rows intact, per-input order; dedupe: one row per distinct key, each an input row) is evaluated on every output with the harness's own comparator. A case is one (inputs, scripts, options); non-trivial = at least two non-empty inputs (dedupe: one); distinct by the JSON of the case."
 
 	var vm []string
 	vmRows := 0
@@ -1498,6 +2044,16 @@ func runC09(c *core.Ctx) {
 		c09Run(c, cs, "corpus/"+cs.Kind)
 		c.Sample(cs)
 		addVm(cs)
+	}
+	// large file-backed cases with ties at the page boundaries of the first sorting column (fixed choices)
+	for n, fx := range []struct {
+		shape string
+		desc  bool
+	}{{"tie-lower", false}, {"tie-lower-crafted", false}, {"tie-lower-crafted", true}, {"tie-lower-at-min", false}, {"tie-upper", false},
+		{"tie-upper", true}, {"tie-chain", false}, {"touching", false}, {"nested", false}, {"identical-first-column", false}} {
+		cs := c09GenTie(c09FixedSeq(uint64(n+1)), fx.shape, fx.desc)
+		cs.Note = "corpus " + cs.Note
+		c09Run(c, cs, "corpus/groups-big")
 	}
 
 	// ---- exhaustive small scope: two and three readers, keys in {0,1}, length <= 3
@@ -1604,65 +2160,24 @@ func runC09(c *core.Ctx) {
 		}
 	}
 
-	// ---- row groups: large file-backed inputs with small pages (refinement path), refined and unrefined plans
+	// ---- row groups: large file-backed inputs with small pages (refinement path), refined and unrefined plans.
+	// Every other case is built around the boundary cases of the cut lookups (c09GenTie).
 	nBig := c.N(60, 700)
 	for i := 0; i < nBig; i++ {
-		k := 2 + c.Rng.Intn(3)
-		cols := [][]c09Col{{{}}, {{}}, {{Desc: true}}, {{}, {}}, {{Optional: true}}}[c.Rng.Intn(5)]
-		ins := make([][]c09Key, k)
-		base := int64(0)
-		for j := 0; j < k; j++ {
-			n := 1500 + c.Rng.Intn(2500)
-			step := 1 + c.Rng.Intn(2)
-			ks := make([]c09Key, n)
-			v := base
-			for r := 0; r < n; r++ {
-				if c.Rng.Intn(step+1) != 0 {
-					v++
-				}
-				x := v
-				ks[r] = make(c09Key, len(cols))
-				ks[r][0] = &x
-				for q := 1; q < len(cols); q++ {
-					y := c.Rng.Int63n(3)
-					ks[r][q] = &y
-				}
+		var proto *c09Case
+		if i%2 == 1 {
+			shape := c09TieShapes[c.Rng.Intn(len(c09TieShapes))]
+			proto = c09GenTie(c.Rng.Intn, shape, c.Rng.Intn(3) == 0)
+			if c.Rng.Intn(2) == 0 {
+				proto.Batches = c09GenBatches(c)
 			}
-			c09SortKeys(cols, ks)
-			ins[j] = ks
-			switch c.Rng.Intn(4) {
-			case 0: // boundary overlap
-				base = v - int64(c.Rng.Intn(200))
-			case 1: // touching
-				base = v
-			case 2: // containment: next starts inside
-				base = base + (v-base)/3
-			default: // gap
-				base = v + 10
-			}
+		} else {
+			proto = c09GenBig(c)
 		}
-		if cols[0].Desc {
-			for j := range ins {
-				c09SortKeys(cols, ins[j])
-			}
-		}
-		if cols[0].Optional && c.Rng.Intn(2) == 0 {
-			// some nulls at the end of one input
-			j := c.Rng.Intn(k)
-			for r := len(ins[j]) - 3; r < len(ins[j]); r++ {
-				ins[j][r] = make(c09Key, len(cols))
-			}
-		}
-		c.Rng.Shuffle(len(ins), func(a, b int) { ins[a], ins[b] = ins[b], ins[a] })
-		backing := make([]string, k)
-		for j := range backing {
-			backing[j] = "file"
-		}
-		pageBuf := []int{256, 512, 1024, 4096}[c.Rng.Intn(4)]
-		batches := c09GenBatches(c)
+		cols, ins, backing, pageBuf, batches := proto.Cols, proto.Inputs, proto.Backing, proto.PageBuf, proto.Batches
 		var keysRefined []c09Out
 		for _, noRefine := range []bool{false, true} {
-			cs := &c09Case{Kind: "groups", Cols: cols, Inputs: ins, Batches: batches, Backing: backing, PageBuf: pageBuf, NoRefine: noRefine, Note: "big"}
+			cs := &c09Case{Kind: "groups", Cols: cols, Inputs: ins, Batches: batches, Backing: backing, PageBuf: pageBuf, NoRefine: noRefine, Note: proto.Note}
 			var info c09GroupsInfo
 			ok := true
 			if c.Probe(func() { c09CheckGroups(c, cs, &info) }) {
@@ -1678,16 +2193,14 @@ func runC09(c *core.Ctx) {
 					fired++
 				}
 			}
-			c.Case(bucket, fmt.Sprintf("big %d %v", i, noRefine), true)
+			key := fmt.Sprintf("big %d %v", i, noRefine)
+			c.Case(bucket, key, true)
 			if !ok {
 				continue
 			}
+			c09RefineCase(c, cs, &info, key)
 			// refined and unrefined plans deliver the same keys in the same positions
-			s := c09NewSchema(cols)
-			read, _, _, fail := c09Groups(s, cs)
-			if fail != "" {
-				continue
-			}
+			read := info.read
 			if !noRefine {
 				keysRefined = read
 			} else if keysRefined != nil {
@@ -1702,11 +2215,16 @@ func runC09(c *core.Ctx) {
 		}
 		// dedupe on the same inputs (refinement is not applied)
 		if i%3 == 0 {
-			cs := &c09Case{Kind: "groups", Cols: cols, Inputs: ins, Batches: batches, Backing: backing, PageBuf: pageBuf, Dedupe: true, Note: "big"}
+			cs := &c09Case{Kind: "groups", Cols: cols, Inputs: ins, Batches: batches, Backing: backing, PageBuf: pageBuf, Dedupe: true, Note: proto.Note}
 			c09Run(c, cs, "groups/big+dedupe")
 		}
 	}
 	c.Note("large file-backed cases in which refinement sliced at least one row-range view: %d of %d", fired, nBig)
+	c.Note("refined plans compared with the model (corr:C09.refine): %d, of which %d contain a row-range part; not compared because of the size limit (%d rows per input, %d in total): %d", c09Stats.compared, c09Stats.sliced, c09RefineMaxInput, c09RefineMaxTotal, c09Stats.tooBig)
+	c.Note("what the planner sees of the inputs: MergeRowGroups wraps every input with ConvertRowGroup, which returns the row group itself when the schemas are equal (EqualNodes) and otherwise keeps the source column chunk (same position) or forwards ColumnIndex()/OffsetIndex() to it (convertedColumnChunk); the harness probes the wrapped row groups: %d inputs were wrapped in this run. A parquet.Buffer's column chunk returns a one-page column index (min/max of all values, NullPage only when every value is null) and a one-page offset index, so newCutLookups returns lookups for it (cutAbove/cutBelow are 0 or NumRows): non-empty Buffer inputs %d, with lookups %d, with a one-page layout %d", c09Stats.converted, c09Stats.bufferInputs, c09Stats.bufferCuts, c09Stats.bufferOnePage)
+	if c09Stats.indexOdd != "" {
+		c.Note("unexpected page index shape: %s", c09Stats.indexOdd)
+	}
 
 	// ---- cases.v: the model evaluated inside coqc on a sample of the reader cases
 	c.Vm("From Coq Require Import List ZArith Bool Arith.\nFrom PQ Require Import Merge.Model Merge.Instance.\nImport ListNotations.")
